@@ -214,6 +214,14 @@ void supla_verif_hook_relay_hi(int port, unsigned char hi) {
   if (fw_hook_relay_log) sdk_out("RELAYHI %d %u %llu", port, hi, (unsigned long long)sdk_now_us);
 }
 
+/* ---- board notification of supla_esp_input_notify_state_change (BOARD_INPUT_STATE_CHANGE_NOTIF) ---- */
+#include <supla_esp_input.h>
+int fw_hook_input_log = 0;
+void supla_esp_board_input_state_change(void *_input_cfg) {
+  supla_input_cfg_t *c = (supla_input_cfg_t *)_input_cfg;
+  if (fw_hook_input_log) sdk_out("INCHG %d %d %llu", (int)(c - supla_input_cfg), c->last_state, (unsigned long long)sdk_now_us);
+}
+
 /* ---- hooks in mqtt.c (__mqtt_recv): every receive pass and every packet taken out of the buffer ---- */
 int fw_hook_mqtt_log = 0;
 void supla_verif_hook_mqtt_recv_begin(void) {
